@@ -71,15 +71,47 @@ func c17TypeName(t labels.MatchType) string {
 	return "nre"
 }
 
+// c17MatcherArg is a matcher in the driver's notation: `eq|ne|re|nre:<hex name>:<hex value>[:e]`; `:e` tells the model that
+// the regular expression of a =~ / !~ matcher matches the empty string (the regular-expression engine stays outside the
+// model; fingerprintsQuery consults it through Matcher.Matches("")).
+func c17MatcherArg(m *labels.Matcher) string {
+	s := c17TypeName(m.Type) + ":" + h.Hex([]byte(m.Name)) + ":" + h.Hex([]byte(m.Value))
+	if (m.Type == labels.MatchRegexp && m.Matches("")) || (m.Type == labels.MatchNotRegexp && !m.Matches("")) {
+		s += ":e"
+	}
+	return s
+}
+
+func c17MatcherArgs(ms []*labels.Matcher) string {
+	if len(ms) == 0 {
+		return "-"
+	}
+	parts := make([]string, len(ms))
+	for i, m := range ms {
+		parts[i] = c17MatcherArg(m)
+	}
+	return strings.Join(parts, ",")
+}
+
 func c17RunFpSQL(r *h.Result, c *c17FpCase) (ops, impl []string, err error) {
 	var ms []*labels.Matcher
-	var mparts []string
-	for _, m := range c.Matchers {
+	for i, m := range c.Matchers {
 		name, val := string(h.UnHex(m.Name)), string(h.UnHex(m.Value))
 		t := c17MatchType(m.Type)
-		ms = append(ms, &labels.Matcher{Type: t, Name: name, Value: val}) // no regexp compile: the planner reads Type/Name/Value only
-		mparts = append(mparts, c17TypeName(t)+":"+h.Hex([]byte(name))+":"+h.Hex([]byte(val)))
+		lm, err := labels.NewMatcher(t, name, val)
+		if err != nil {
+			// not a regular expression (the generator draws adversarial bytes): the same bytes under = / != — the PromQL
+			// parser would have refused the selector, the planner never sees such a matcher
+			if t == labels.MatchRegexp {
+				t, c.Matchers[i].Type = labels.MatchEqual, "="
+			} else {
+				t, c.Matchers[i].Type = labels.MatchNotEqual, "!="
+			}
+			lm = labels.MustNewMatcher(t, name, val)
+		}
+		ms = append(ms, lm)
 	}
+	mparts := []string{c17MatcherArgs(ms)}
 	ctx := shared.PlannerContext{
 		From: time.Unix(0, c.Start*1000000), To: time.Unix(0, c.End*1000000), Ctx: context.Background(), Type: 2,
 		TimeSeriesGinTableName: "time_series_gin", SamplesTableName: "samples_v3",
@@ -128,6 +160,9 @@ func c17FpSQL(r *h.Result, rng *h.Rng, n int) error {
 		if rng.Chance(15) {
 			nm = rng.Range(6, 14)
 		}
+		if rng.Chance(3) {
+			nm = 0 // no matcher at all: neither OR nor HAVING
+		}
 		for k := 0; k < nm; k++ {
 			var name, val []byte
 			if rng.Chance(60) {
@@ -158,6 +193,20 @@ func c17FpSQL(r *h.Result, rng *h.Rng, n int) error {
 		}
 		r.Case("fpsql:"+string(b), special || nm > 8)
 		r.Count(fmt.Sprintf("fpsql:matchers=%d", nm))
+		nopt := 0
+		for _, m := range c.Matchers {
+			if lm, err := labels.NewMatcher(c17MatchType(m.Type), string(h.UnHex(m.Name)), string(h.UnHex(m.Value))); err == nil && lm.Matches("") {
+				nopt++
+			}
+		}
+		switch {
+		case nopt == 0:
+			r.Count("fpsql:every matcher rejects the empty value (shared planner)")
+		case nopt == nm:
+			r.Count("fpsql:every matcher accepts the empty value (no OR, HAVING == 0)")
+		default:
+			r.Count("fpsql:some matchers accept the empty value (inverted, bit clear)")
+		}
 		if i%301 == 0 {
 			r.Sample(c)
 		}
@@ -196,7 +245,7 @@ func init() {
 		if tier != "quick" {
 			n = 30000
 		}
-		r.Rule += "; fpsql: 1..5 (15%: 6..14) matchers of the four types, names from the label pool or ≤8 adversarial bytes, values from a regex pool or ≤12 adversarial bytes (quotes, backslashes, NUL, newlines), windows around 2023-11-14 and around the epoch; non-trivial = an escaped byte in a name/value or more than 8 matchers"
+		r.Rule += "; fpsql: 1..5 (15%: 6..14) matchers of the four types, names from the label pool or ≤8 adversarial bytes, values from a regex pool or ≤12 adversarial bytes (quotes, backslashes, NUL, newlines), windows around 2023-11-14 and around the epoch; 3 %: no matcher; matchers that accept the empty value (!=x, =\"\", =~.*, !~x) occur in most cases; non-trivial = an escaped byte in a name/value or more than 8 matchers"
 		return c17FpSQL(r, rng, n)
 	})
 	c17ReplayMore["fpsql"] = func(r *h.Result, raw json.RawMessage) error {
